@@ -181,7 +181,14 @@ fn check_text(m: &mut Mon, text: &str, do_locators: bool) {
     let got: Vec<(u32, String)> = NewlineWithTrailingNewline::from(text)
         .map(|l| (u32::from(l.start()), l.as_full_str().to_string()))
         .collect();
-    m.chk("trailing_newline_iter", text, got, tl);
+    m.chk("trailing_newline_iter", text, got, tl.clone());
+    for base in [0u32, 7, 1000] {
+        let got: Vec<(u32, String)> = NewlineWithTrailingNewline::with_offset(text, TextSize::from(base))
+            .map(|l| (u32::from(l.start()), l.as_full_str().to_string()))
+            .collect();
+        let exp: Vec<(u32, String)> = tl.iter().map(|(o, s)| (o + base, s.clone())).collect();
+        m.chk("trailing_newline_iter.with_offset", text, (base, got), (base, exp));
+    }
     // find_newline
     let exp = if lines.len() > 1 {
         let l = lines[0];
